@@ -5,7 +5,7 @@ from harness import lts_check
 from vlib import paths
 ID = 'C03'
 RUNNER = 'LTS'
-COQ_ROOTS = ['Props/C03.v', 'GenProps/Session_consts.v']
+COQ_ROOTS = ['Props/C03.v', 'Props/E2E.v', 'GenProps/Session_consts.v']
 RULE = ('A case is (scenario, schedule): client programs (sync/async requests, take_notification, await-disconnect), a scripted '
         'server (replies in any order, duplicates, unknown/missing ids, notifications, unknown messages, EOF/error) and the list of '
         'scheduler decisions at every synchronisation point (lock acquire, event set/wait, queue put/get, connected read, '
